@@ -544,3 +544,36 @@ Print Assumptions C04_zbdd_cube_agree.
 
 Definition C04_pin_zbdd_hyps := conj ex_z4_ok ex_z4_chain.
 Definition C04_pin_zbdd_run_restrict := ex_z4_restrict.
+
+(** *** ... with the semantic hypothesis of the property text (DD/ZbddCubeCanon.v): [vars] is any
+    handle whose Boolean function is the conjunction of the literals [lits] (variable, polarity) *)
+From OxiVerif Require Import DD.ZbddCubeCanon.
+
+Theorem C04_zbdd_restrict_is_cube : forall C cget cadd, zlossy C cget cadd ->
+  forall s (c : C) f vars lits,
+  ZbddOK s -> zchain_ok_b s = true -> ZCacheOKB C cget s c -> ref_ok s f -> ref_ok s vars ->
+  NoDup (map fst lits) -> (forall v b, In (v, b) lits -> v < nlevels s) ->
+  (forall a, zbfun_of s vars a = forallb (fun p : nat * bool => Bool.eqb (a (fst p)) (snd p)) lits) ->
+  exists s' c' r, zrestrict_edge C cget cadd (S (nlevels s)) s c f vars = Some (s', c', r) /\
+    (ZbddOK s' /\ zchain_ok_b s' = true /\ extends s s' /\ ZCacheOKB C cget s' c' /\ ref_ok s' r) /\
+    (forall a, zbfun_of s' r a = restrict_s lits (zbfun_of s f) a) /\
+    exists lits', zcube_lits (S (nlevels s)) s vars 0 = Some lits'.
+Proof. exact zrestrict_edge_is_cube. Qed.
+Print Assumptions C04_zbdd_restrict_is_cube.
+
+(** canonicity for cubes: a reference that denotes the conjunction of the literals [M] (from level
+    [lvl] on) has the shape the code walks *)
+Theorem C04_zbdd_cube_shape : forall s, ZbddOK s -> forall k lvl vars M,
+  nlevels s - lvl <= k -> lvl <= nlevels s ->
+  ZDen s vars (fun S => incr_from lvl S /\ Forall (fun x => x < nlevels s) S /\
+    forall l, lvl <= l < nlevels s -> (M l = Some true -> In l S) /\ (M l = Some false -> ~ In l S)) ->
+  ZCube s M lvl vars.
+Proof. exact zcube_of_den. Qed.
+Print Assumptions C04_zbdd_cube_shape.
+
+(** the executable reader accepts every reference of cube shape *)
+Theorem C04_zbdd_cube_lits_complete : forall s, ZbddOK s -> forall M lvl vars, ZCube s M lvl vars ->
+  forall fuel, lvl <= nlevels s -> nlevels s - lvl < fuel ->
+  exists lits, zcube_lits fuel s vars lvl = Some lits.
+Proof. exact zcube_lits_complete. Qed.
+Print Assumptions C04_zbdd_cube_lits_complete.
